@@ -49,6 +49,34 @@ CHECKS = {
                       "sides, paused/filtered partitions stay silent and every log is drained after the quiet point; both codec "
                       "implementations (compiled one rebuilt from the working tree)"),
                 note=SIM_NOTE + "; visibility definition; reference record codec for log generation and ground truth"),
+    "C04": dict(ready=True, engine="simcluster", level="fault_enumeration", design_ref="DESIGN.md §6 C04",
+                technique="runtime monitoring: commit-safety checker over the simulated coordinator's OffsetCommit log x the "
+                          "harness's per-incarnation delivery log; kill / stop() injected at sampled event indices of every "
+                          "reference history",
+                text=("real group members (auto-commit or commit() without arguments) consuming logs that grow while they run; "
+                      "joins, stop()s, kills, subscription changes, coordinator moves, commit and other group requests failing "
+                      "with retriable/membership errors; every reference history re-run with one member killed or stopped at "
+                      "sampled event indices; every accepted commit is checked against what had been handed out, every "
+                      "ownership period against the committed offset its owner was given, and the union of all deliveries "
+                      "against the logs (at-least-once)"),
+                note=SIM_NOTE + "; kill = transports severed silently then tasks cancelled; auto_offset_reset=earliest, untrimmed logs"),
+    "C05": dict(ready=True, engine="simcluster", level="exploration", design_ref="DESIGN.md §6 C05",
+                technique="runtime monitoring: generation ledger of the simulated coordinator (assignments decoded with the "
+                          "independent codec) x the harness's listener-callback / assignment() / delivery timeline",
+                text=("1-4 real group members x range/roundrobin/sticky x equal, different and pattern subscriptions; members "
+                      "joining, leaving, crashing, changing subscription; partitions and topics added; rebalances overlapping "
+                      "in-flight fetches and getmany(); per generation: disjointness, adoption (callback argument = assignment() "
+                      "= SyncGroup reply), silence outside ownership periods, exact cursor inside them, revoke-before-assign "
+                      "barrier across all participants"),
+                note=SIM_NOTE + "; request_timeout > rebalance_timeout (as with the defaults)"),
+    "C06": dict(ready=True, engine="simcluster", level="exploration", design_ref="DESIGN.md §6 C06",
+                technique="runtime monitoring: trace checker over every group request/reply seen by the simulated coordinator "
+                          "(JoinGroup contents, Join->Sync succession with a justified-rejoin rule) + bounded-convergence observer",
+                text=("1-4 members x 1-3 assignors in any order x JoinGroup v0..v5; every retriable/membership error code, "
+                      "drops, resets, lost replies and delays on every group request type; coordinator moves with/without "
+                      "state, broker bounces, session expiry; after the quiet point + B_group: Stable, all live members in the "
+                      "latest generation, full coverage, then 3 x session_timeout without JoinGroup and with regular heartbeats"),
+                note=SIM_NOTE + "; liveness restated as bounded progress in virtual time; only retriable/membership errors injected"),
     "C08": dict(ready=True, engine="simcluster", level="exploration", design_ref="DESIGN.md §6 C08",
                 technique="runtime monitoring: independent isolation reader over generated transactional logs vs. what the real "
                           "consumer delivers at both isolation levels; fetch-offset stall detector",
